@@ -13,6 +13,26 @@ CHECKS = {
          'No absence proof: exploration.',
     note='Trusts mpmath at 60 digits, numpy eigvalsh for the tolerance model, IEEE-754 binary64; cond(S)>1e12 counted inconclusive.',
     design='DESIGN.md section 4, C07'),
+ 'C08': dict(
+    technique='property-based testing against an independent ODE power-series reference (longdouble + 60-digit mpmath); metamorphic composition law over generated partitions',
+    text='Generated search over F classes (zero/nilpotent/stable/unstable/skew/stiff/navigation-like, n<=24), PSD Q incl. singular, dt in [0,10] '
+         'and partitions into 1..8 sub-steps; transition and noise integral compared with a reference that shares no algorithm with Van Loan/expm; '
+         'symmetry, PSD, exact zero step, composition and partition-independent covariance propagation. Exploration, no absence proof.',
+    note='Trusts longdouble/mpmath series reference (cross-checked against each other each run); tolerance includes a flat 5e-12 relative allowance and an absolute 0.05*eps*|exp|^2 floor for scipy expm norm-wise accuracy.',
+    design='DESIGN.md section 4, C08'),
+ 'C16': dict(
+    technique='property-based testing against own closed-form WGS-84 in longdouble, finite-difference geometry of the library map, first-order ladders, parity metamorphic relations',
+    text='Generated points incl. poles/equator/+-180/both hemispheres/altitudes -10 km..40000 km, evaluated stacked, scalar and as lists; conversions vs closed form and round trip in metres, '
+         'frame axes vs own axes and vs partial derivatives of the library lla_to_ecef with principal radii as lengths, perturb/difference/NED/curvature first-order relations on a magnitude ladder, '
+         'gravity in all representations vs own Somigliana, gravitation = gravity + Omega x (Omega x r), parity. Exploration.',
+    note='Trusts own WGS-84 reference (self-tested), longdouble; first-order relations only for |lat|<=89; round-trip tolerance 1e-6 m.',
+    design='DESIGN.md section 4, C16'),
+ 'C17': dict(
+    technique='property-based testing against own elementary-trig DCM with pinned conventions, longdouble Rodrigues formula, central-difference Jacobian',
+    text='Generated Euler triples (strata near pitch +-90, cardinal headings, |angles| up to 360) single/stacked/list and rotation vectors log-uniform in [0, pi] incl. +-64 ulp around the '
+         'small-angle threshold; DCM entries, sign conventions, round trip, exponential map to 8 eps and continuity across the branch, attitude block of transform_to_output vs derivative of Euler angles. Exploration.',
+    note='Trusts own rotation algebra (self-tested with convention pins); scipy as_euler gimbal zone (|pitch|>90-1e-4 deg) checked as a rotation only.',
+    design='DESIGN.md section 4, C17'),
 }
 NOT_YET = 'check not built yet in this session (planned, see DESIGN.md section 8); not claimed until its check exists'
 
